@@ -743,6 +743,34 @@ def _replay_he_mass():
         return dict(confirmed=False, raised=repr(ex)[:300])
 
 
+def ob_he_default_getter():
+    """Get_K_C_M_F() with its default argument on a dynamic hyperelastic simulation whose system has to be assembled (flag raised by any change): same matrices as before the flag was raised"""
+    import contextlib, io
+    from EasyFEA import Models, Simulations
+    from EasyFEA.Simulations.Solvers import AlgoType
+    coords, connect = patches.star_patch("QUAD4")
+    mesh = patches.real_mesh("QUAD4", coords, connect)
+    with contextlib.redirect_stdout(io.StringIO()), np.errstate(all="ignore"):
+        sm = Simulations.HyperElastic(mesh, Models.HyperElastic.NeoHookean(2, K=10.0, thickness=1.0), verbosity=False)
+        sm.rho = 1.3
+        sm.Solver_Set_Hyperbolic_Algorithm(0.1, algo=AlgoType.midpoint)
+        c_ = np.asarray(mesh.coord)
+        sm.add_dirichlet(np.where(np.isclose(c_[:, 0], c_[:, 0].min()))[0], [0, 0], ["x", "y"])
+        sm.add_neumann(np.where(np.isclose(c_[:, 0], c_[:, 0].max()))[0], [0.01], ["x"])
+        sm.Solve()
+        sm.Need_Update()
+        try:
+            A = [X.toarray() for X in sm.Get_K_C_M_F()]
+            B = [X.toarray() for X in sm.Get_K_C_M_F(sm.problemType)]
+        except Exception as ex:
+            raise Refuted(f"dynamic HyperElastic: Solve(); Need_Update(); Get_K_C_M_F() raises {type(ex).__name__}: {ex}", cex=dict(history=["Solve", "Need_Update", "Get_K_C_M_F()"]),
+                          signature="history:hyper:default_getter", replay=dict(confirmed=True, raised=repr(ex)[:200]))
+    for a, b in zip(A, B):
+        if np.abs(a - b).max() > 0:
+            raise Refuted("Get_K_C_M_F() and Get_K_C_M_F(problemType) differ", signature="history:hyper:default_getter:value", replay=dict(confirmed=True))
+    return Verdict(DISCHARGED, backend="native")
+
+
 def ob_he_mass(opname):
     def thick(m, sm):
         sm.material.thickness = 5.0
@@ -1366,6 +1394,8 @@ def build(tier, seed):
                   clause="after the mesh is replaced K and F == those of a weak-form simulation constructed on the new mesh", timeout=300))
     obs.append(Ob("C14.history.beam.theory", ob_beam_theory_switch, (), "X", ("EasyFEA/Simulations/_beam.py::Beam.useTimoshenko",), bound="one beam",
                   clause="switching the beam theory of a simulation: K == that of a simulation constructed with that theory (or the switch is refused)", timeout=300))
+    obs.append(Ob("C14.history.hyperelastic.getter", ob_he_default_getter, (), "X", ("EasyFEA/Simulations/_simu.py::_Simu.Get_K_C_M_F",), bound="one dynamic hyperelastic step",
+                  clause="after the update flag is raised the public getter assembles the system of the simulation's problem type"))
     for solver in ("auto", "newton"):
         obs.append(Ob(f"C14.history.behavior.elastic.{solver}", ob_behavior_elastic_change, (solver,), "X", ("EasyFEA/Models/InElastic/_behavior.py::Behavior.__init__", "EasyFEA/Models/InElastic/_behavior.py::Behavior.Integrate"),
                       bound="one von Mises / linear hardening behaviour, 6 strain states (elastic and plastic), parameters E and v of its elastic law re-assigned", timeout=300,
